@@ -729,9 +729,15 @@ def inject_faults(rng, M, limit):
         out.append(('other:implicit-choice', M[1][ti][0],
                     mod_replace(M, ti, path, lambda t: with_tag(t, (t[1][0], t[1][1], 'i')))))
     if len(M[1]) >= 2 and rng.random() < 0.5:
-        i, j = rng.sample(range(len(M[1])), 2)
-        types = list(M[1]); types[j] = (types[i][0], types[j][1])
-        out.append(('other:dup-type', types[i][0], (M[0], types)))
+        # which of two equally named assignments a reference resolves to depends on the internals of
+        # asn1c's hash table (tiny mode: first, bucket mode: most recently used), so only a type
+        # without references inside takes the duplicated name: no resolution can create a cycle
+        leaf = [j for j, (_, t) in enumerate(M[1]) if not any(n[0] == 'ref' for _, n in walk(t))]
+        if leaf:
+            j = rng.choice(leaf)
+            i = rng.choice([k for k in range(len(M[1])) if k != j])
+            types = list(M[1]); types[j] = (types[i][0], types[j][1])
+            out.append(('other:dup-type', types[i][0], (M[0], types)))
     if len(out) > limit:
         # keep every fault kind represented
         rng.shuffle(out)
